@@ -411,6 +411,70 @@ example : ∃ la ra, deriveKeys realH .basic256Sha256 [1] [2] = .ok (la, ra) := 
   unfold makeKeys at h1 h2
   exact ⟨k2, k1, by simp [deriveKeys, deriveKeysW, h1, h2, Outcome.bind]⟩
 
+/-! ### zero-padding-equivalent secrets (recorded finding, format-inherent)
+
+HMAC pads a key shorter than the block with zero bytes, so a secret and the same secret followed by
+zero bytes (up to the block size of 64) are THE SAME key — and after the empty-key repair so are the
+empty secret and `[0]`.  "Different nonces give different keys" is therefore false for exactly
+such pairs, for RFC 5246's `P_hash` as much as for the code. -/
+
+/-- RFC 2104 key padding, for ANY underlying hash: trailing zero bytes up to the block size do not
+change the key. -/
+theorem hmacWith_trailing_zeros (hash : Bytes → Bytes) (k : Bytes) (z : Nat) (h : k.length + z ≤ 64)
+    (m : Bytes) : hmacWith hash (k ++ List.replicate z 0) m = hmacWith hash k m := by
+  have h1 : ¬ (k.length + z > 64) := by omega
+  have h2 : ¬ k.length > 64 := by omega
+  have e : 64 - k.length = z + (64 - (k.length + z)) := by omega
+  have hk : (k ++ List.replicate z 0) ++ List.replicate (64 - (k.length + z)) 0 =
+      k ++ List.replicate (64 - k.length) 0 := by
+    rw [List.append_assoc, List.replicate_append_replicate, ← e]
+  simp only [hmacWith, List.length_append, List.length_replicate, if_neg h1, if_neg h2, hk]
+
+/-- `P_hash` depends on the secret only through the keyed function `hmac secret ·`. -/
+theorem specA_congr (hmac : Hmac) (s s' d : Bytes) (h : ∀ m, hmac s m = hmac s' m) (i : Nat) :
+    specA hmac s d i = specA hmac s' d i := by
+  induction i with
+  | zero => rfl
+  | succ i ih => simp only [specA, ih, h]
+
+theorem pHash_congr (hmac : Hmac) (s s' d : Bytes) (h : ∀ m, hmac s m = hmac s' m) (n : Nat) :
+    pHash hmac s d n = pHash hmac s' d n := by
+  have hs : ∀ k, specStream hmac s d k = specStream hmac s' d k := by
+    intro k
+    induction k with
+    | zero => rfl
+    | succ k ih => simp only [specStream, specBlock, ih, specA_congr hmac s s' d h, h]
+  simp only [pHash, hs]
+
+/-- **C13_counterexample_trailing_zero_nonces**: for every supported policy, a secret and the same
+secret with `z > 0` trailing zero bytes (together at most 64 bytes) derive IDENTICAL key tuples for
+every seed, although the nonce pairs differ.  Recorded as the known finding
+`C13-zero-padding-equivalent-secrets`; `distinct_nonces_iff_inj` remains the characterisation
+(the injectivity hypothesis fails across lengths, which is why it is stated per length `L`). -/
+theorem C13_counterexample_trailing_zero_nonces (p : Policy) (alg : HashAlg) (sk ek bs : Nat)
+    (ht : part6Table p = some (alg, sk, ek, bs)) (s d : Bytes) (z : Nat) (hz : 0 < z)
+    (hlen : s.length + z ≤ 64) :
+    makeKeys realH p (s ++ List.replicate z 0) d = makeKeys realH p s d ∧
+      (s ++ List.replicate z 0, d) ≠ (s, d) := by
+  refine ⟨?_, ?_⟩
+  · rw [makeKeys_eq_iff realH realH_laws p alg sk ek bs ht]
+    apply pHash_congr
+    intro m
+    cases alg
+    · exact hmacWith_trailing_zeros sha1 s z hlen m
+    · exact hmacWith_trailing_zeros sha256 s z hlen m
+  · intro h
+    have := congrArg (fun x => x.1.length) h
+    simp at this
+    omega
+
+/-- the same for the pair (empty secret, `[0]`), which the empty-key repair makes equivalent as
+well (it already was for the specification) -/
+theorem C13_counterexample_empty_vs_zero_secret (p : Policy) (alg : HashAlg) (sk ek bs : Nat)
+    (ht : part6Table p = some (alg, sk, ek, bs)) (d : Bytes) :
+    makeKeys realH p [0] d = makeKeys realH p [] d :=
+  (C13_counterexample_trailing_zero_nonces p alg sk ek bs ht [] d 1 (by omega) (by simp)).1
+
 /-! ### the model's per-policy constants are the ones in the source (translator T2) -/
 
 /-- the Rust variant name of a policy -/
@@ -432,6 +496,21 @@ theorem model_matches_source (p : Policy) :
     p.encLens? = lookup encLens p.rustName ∧
     p.hashAlg?.map HashAlg.rustName = lookup prfDigest p.rustName := by
   cases p <;> decide +kernel
+
+open OpcuaVerif.Generated.CryptoPolicy in
+/-- the three `prf` calls of `make_secure_channel_keys`, the argument order of `derive_keys`, the slice of `prf`, the loop of `p_sha` and the empty-key substitution of `hmac_vec` have the shape the model copies
+(regenerated from the source on every check; the right-hand sides are the shapes the model was
+written from — a change of a guard, an argument order or a condition breaks this obligation) -/
+theorem source_shape :
+    lookup shape "keys.prf_calls" = some "secret,seed,signing_key_length,0|secret,seed,encrypting_key_length,signing_key_length|secret,seed,encrypting_block_size,signing_key_length+encrypting_key_length," ∧
+    lookup shape "derive.remote_then_local" = some "remote_keys,&self.local_nonce,&self.remote_nonce|local_keys,&self.remote_nonce,&self.local_nonce" ∧
+    lookup shape "prf.slice" = some "message_digest,secret,seed,offset+length,offset..(offset+length)" ∧
+    lookup shape "p_sha.loop" = some "result.len()<length" ∧
+    lookup shape "p_sha.a_next" = some "hmac_vec(message_digest,secret,&a_last)" ∧
+    lookup shape "p_sha.block" = some "&a_next,seed" ∧
+    lookup shape "p_sha.truncate" = some "length" ∧
+    lookup shape "hmac_vec.empty_key" = some "ifkey.is_empty(){&[0u8][..]}else{key}" := by
+  decide +kernel
 
 /-! ### standard test vectors, evaluated by the kernel on the model's own definitions
 (FIPS 180-4 "abc" and the 448-bit two-block message; RFC 2202 / RFC 4231 test case 2; RFC 4231 test
